@@ -170,6 +170,8 @@ Apply(mm, dk, o) ==
                                  IN  [m |-> r, disk |-> WriteDoc(r, FALSE)]
       [] o.name = "fn_sort"   -> LET r == SortByTilt(Read(dk), o.reset)
                                  IN  [m |-> r, disk |-> WriteDoc(r, FALSE)]
+      \* mdoc.remove_images without output_file: the flagged object is returned, the input file stays what it is
+      [] o.name = "fn_remove_keep" -> [m |-> RemoveImages(Read(dk), { p - o.base : p \in o.idx }, TRUE), disk |-> dk]
 
 NKept(mm) == Cardinality(Candidates(mm, TRUE))
 
@@ -185,6 +187,7 @@ Enabled(mm, dk, o) ==
       [] o.name = "fn_remove" -> /\ o.idx # {} /\ \A p \in o.idx : p - o.base >= 0 /\ p - o.base < Len(dk.secs)
                                  /\ Cardinality(o.idx) < Len(dk.secs)
       [] o.name = "fn_sort"   -> DistinctTilts(Read(dk))
+      [] o.name = "fn_remove_keep" -> o.idx # {} /\ \A p \in o.idx : p - o.base >= 0 /\ p - o.base < Len(dk.secs)
 
 StepOp(o) == /\ Enabled(m, disk, o)
              /\ LET r == Apply(m, disk, o)
@@ -208,6 +211,7 @@ DoWrite(inclRemoved) == StepOp([name |-> "write", removed |-> inclRemoved])
 DoReload == StepOp([name |-> "reload"])
 DoFnRemove(P, base) == StepOp([name |-> "fn_remove", idx |-> { p + base : p \in P }, base |-> base])
 DoFnSort(resetZ) == StepOp([name |-> "fn_sort", reset |-> resetZ])
+DoFnRemoveKeep(P, base) == StepOp([name |-> "fn_remove_keep", idx |-> { p + base : p \in P }, base |-> base])
 
 Positions == 0..3
 Next == /\ d < MaxDepth
@@ -219,6 +223,7 @@ Next == /\ d < MaxDepth
            \/ DoReload
            \/ \E P \in SUBSET Positions, base \in {0, 1} : DoFnRemove(P, base)
            \/ \E b \in BOOLEAN : DoFnSort(b)
+           \/ \E P \in SUBSET Positions : DoFnRemoveKeep(P, 1)
 
 Spec == Init /\ [][Next]_vars
 
